@@ -44,10 +44,150 @@ std::uint64_t run_seed(std::uint64_t base, const std::string& prop, long i) {
     return mix3(base, ph, (std::uint64_t)i);
 }
 
+// ---------------------------------------------------------------------------
+// fork server ("zygote"): started while the process has not executed any plan
+// yet, it runs plans in pristine children on request (C14 solo differential)
+
+struct Zygote {
+    pid_t pid = -1;
+    int to = -1, from = -1;
+
+    static bool read_all(int fd, void* buf, std::size_t n) {
+        char* p = (char*)buf;
+        while (n) {
+            ssize_t r = read(fd, p, n);
+            if (r <= 0)
+                return false;
+            p += r;
+            n -= (std::size_t)r;
+        }
+        return true;
+    }
+    static bool write_all(int fd, const void* buf, std::size_t n) {
+        const char* p = (const char*)buf;
+        while (n) {
+            ssize_t r = write(fd, p, n);
+            if (r <= 0)
+                return false;
+            p += r;
+            n -= (std::size_t)r;
+        }
+        return true;
+    }
+
+    void start() {
+        if (pid > 0)
+            return;
+        int a[2], b[2];
+        if (pipe(a) != 0 || pipe(b) != 0)
+            return;
+        fflush(stdout);
+        pid = fork();
+        if (pid != 0) {
+            close(a[0]);
+            close(b[1]);
+            to = a[1];
+            from = b[0];
+            return;
+        }
+        // the zygote: never executes a plan itself
+        close(a[1]);
+        close(b[0]);
+        signal(SIGPIPE, SIG_IGN);
+        for (;;) {
+            std::uint32_t len = 0;
+            if (!read_all(a[0], &len, sizeof len))
+                _exit(0);
+            std::string req(len, 0);
+            if (!read_all(a[0], &req[0], len))
+                _exit(0);
+            int c[2];
+            if (pipe(c) != 0)
+                _exit(0);
+            pid_t w = fork();
+            if (w == 0) {
+                close(c[0]);
+                cpu_alarm(40);
+                std::string out = "{}";
+                try {
+                    Plan p = plan_from_json(jparse(req));
+                    ExecOpts o;
+                    o.focus = "C14";
+                    RunResult r = execute(p, o);
+                    J j = J::obj();
+                    j.set("status", r.status);
+                    J t = J::obj();
+                    for (auto& kv : r.tables) {
+                        J m = J::obj();
+                        for (auto& e : kv.second)
+                            m.set(e.first, e.second);
+                        t.set(kv.first, m);
+                    }
+                    j.set("tables", t);
+                    out = j.str();
+                } catch (std::exception&) {
+                }
+                write_all(c[1], out.data(), out.size());
+                _exit(0);
+            }
+            close(c[1]);
+            std::string resp;
+            char tmp[4096];
+            ssize_t n;
+            while ((n = read(c[0], tmp, sizeof tmp)) > 0)
+                resp.append(tmp, (std::size_t)n);
+            close(c[0]);
+            int st = 0;
+            waitpid(w, &st, 0);
+            if (!(WIFEXITED(st) && WEXITSTATUS(st) == 0))
+                resp = "{}";
+            std::uint32_t rl = (std::uint32_t)resp.size();
+            if (!write_all(b[1], &rl, sizeof rl) ||
+                !write_all(b[1], resp.data(), rl))
+                _exit(0);
+        }
+    }
+
+    bool request(
+        const Plan& p,
+        std::map<std::string, std::map<std::string, std::string>>& tables) {
+        if (pid <= 0)
+            return false;
+        std::string req = plan_to_json(p).str();
+        std::uint32_t len = (std::uint32_t)req.size();
+        if (!write_all(to, &len, sizeof len) || !write_all(to, req.data(), len))
+            return false;
+        std::uint32_t rl = 0;
+        if (!read_all(from, &rl, sizeof rl))
+            return false;
+        std::string resp(rl, 0);
+        if (rl && !read_all(from, &resp[0], rl))
+            return false;
+        try {
+            J j = jparse(resp);
+            if (!j.has("tables") || j.geti("status", RS_INVALID) == RS_INVALID)
+                return false;
+            for (auto& kv : j.at("tables").o)
+                for (auto& e : kv.second.o)
+                    tables[kv.first][e.first] = e.second.s;
+            return true;
+        } catch (std::exception&) {
+            return false;
+        }
+    }
+};
+
+static Zygote g_zygote;
+
 static ExecOpts opts_for(const std::string& prop) {
     ExecOpts o;
     o.focus = prop;
     o.watch_isolation = prop == "C14";
+    if (prop == "C14")
+        o.solo = [](const Plan& p,
+                    std::map<std::string, std::map<std::string, std::string>>& t) {
+            return g_zygote.request(p, t);
+        };
     return o;
 }
 
@@ -93,6 +233,8 @@ static Probe probe(const Plan& plan, const std::string& prop, bool want_stderr =
         close(fds[0]);
         close(efds[0]);
         dup2(efds[1], 2);
+        if (prop == "C14" && plan.diff == "solo")
+            g_zygote.start(); // this child has not executed any plan yet
         cpu_alarm(40);
         RunResult r = run_plan(plan, opts_for(prop));
         J o = J::obj();
@@ -472,6 +614,8 @@ static void child_loop(
     const std::string& prop, int tier, std::uint64_t base, long from, long to,
     double deadline, int wfd) {
     FILE* out = fdopen(wfd, "w");
+    if (prop == "C14")
+        g_zygote.start(); // before the first run of this process
     Stats total;
     std::set<std::uint64_t> sigs;
     long nontrivial = 0;
@@ -778,6 +922,8 @@ static int cmd_replay(const std::string& path, bool verbose) {
             return 1;
         return pr.status == RS_INVALID ? 3 : 0;
     }
+    if (prop == "C14" && plan.diff == "solo")
+        g_zygote.start(); // nothing has been executed in this process yet
     ExecOpts o = opts_for(prop);
     o.keep_log = verbose;
     RunResult r = run_plan(plan, o);
